@@ -390,3 +390,40 @@ class move_end_to:
     def witnesses(rng):
         for _ in range(100):
             yield dict(self=_rand_list(rng, rng.choice(BASIC), n=rng.randrange(1, 5)), to=float(rng.choice([0, -50, 1234.5])))
+
+
+# ----------------------------------------------------------------------------- constructors: exactly the declared fields
+
+from pyvc.ghost import declared, no_nan, unchanged  # noqa: E402
+
+CTOR_CLASSES = BASIC + HOLDS + ["reamber.quaver.lists.notes.QuaHitList:QuaHitList", "reamber.osu.lists.OsuSvList:OsuSvList", "reamber.bms.lists.notes.BMSHitList:BMSHitList"]
+
+
+def _classes(paths):
+    from pyvc.dsl import resolve
+
+    return [resolve(p) for p in paths]
+
+
+@contract("C16", TL + ".empty", args=dict(cls=Choice(_classes(CTOR_CLASSES)), rows=Choice([0, 1, 2, 3])))
+class empty_has_declared_fields:
+    """empty(n): n rows, exactly the declared fields, every cell the declared default (no NaN)."""
+
+    assumes = SHAPE_NOTE
+
+    def ensures_exact_fields_and_rows(cls, rows, result):
+        from pyvc.ghost import rows as rows_of
+
+        return (type(result) is cls and sorted(columns(result)) == sorted(declared(cls)) and len(rows_of(result)) == rows
+                and labels(result) == list(range(rows)))
+
+    def ensures_defaults_no_nan(cls, rows, result):
+        from pyvc.ghost import rows as rows_of
+
+        props = cls._item_class()._props
+        return no_nan(result) and all(all(r[c] == props[c][1] for c in props) for r in rows_of(result))
+
+    def witnesses(rng):
+        for c in _classes(CTOR_CLASSES):
+            for n in (0, 1, 2, 5):
+                yield dict(cls=c, rows=n)
